@@ -6,6 +6,7 @@ Import ListNotations.
 Section PipelineProofs.
   Variables (item res cst : Type).
   Variable f : item -> res.
+  Variable ready : item -> bool.
   Variable cstep : cst -> res -> cst.
   Variable stopped : cst -> bool.
   Variable can_submit : nat -> bool -> bool.
@@ -13,13 +14,13 @@ Section PipelineProofs.
 
   Notation state := (st item cst).
   Notation enabled := (enabled stopped can_submit pool).
-  Notation step := (step f cstep stopped can_submit pool).
-  Notation run := (run f cstep stopped can_submit pool).
+  Notation step := (step f ready cstep stopped can_submit pool).
+  Notation run := (run f ready cstep stopped can_submit pool).
   Notation final := (final stopped).
   Notation st_consume := (st_consume cstep stopped).
   Notation auto_act := (auto_act stopped can_submit pool).
-  Notation drive := (drive f cstep stopped can_submit pool).
-  Notation iter := (iter f cstep stopped can_submit pool).
+  Notation drive := (drive f ready cstep stopped can_submit pool).
+  Notation iter := (iter f ready cstep stopped can_submit pool).
   Notation default_pick := (default_pick stopped can_submit pool).
 
   (* ---------------------------------------------------------------- sequential spec lemmas *)
@@ -46,8 +47,8 @@ Section PipelineProofs.
     unfold Sched.step. destruct (enabled s a) eqn:E; [|reflexivity].
     destruct s as [td n ch h p r d co c]. unfold view.
     destruct a as [| |t| |]; cbn [todo chan hold cons].
-    - destruct td as [|x xs]; [reflexivity|]. cbn [todo chan hold cons].
-      rewrite map_app. cbn [map snd]. rewrite <- !app_assoc. reflexivity.
+    - destruct td as [|x xs]; [reflexivity|]. destruct (ready x); cbn [todo chan hold cons];
+        rewrite map_app; cbn [map snd]; rewrite <- !app_assoc; reflexivity.
     - destruct p as [|t p]; reflexivity.
     - reflexivity.
     - destruct ch as [|q ch]; [reflexivity|]. cbn [todo chan hold cons].
@@ -72,7 +73,7 @@ Section PipelineProofs.
     unfold cs_inv, Sched.step. intros H. destruct (enabled s a) eqn:E; [|exact H].
     destruct s as [td n ch h p r d co c]. cbn [cs cons] in H.
     destruct a as [| |t| |]; cbn [todo chan hold cons cs pending].
-    - destruct td; exact H.
+    - destruct td as [|x xs]; [exact H|]. destruct (ready x); exact H.
     - destruct p; exact H.
     - exact H.
     - destruct ch; exact H.
@@ -159,8 +160,10 @@ Section PipelineProofs.
     unfold Sched.step. intros W. destruct (enabled s a) eqn:E; [|exact W].
     destruct s as [td n ch h p r d co c]. unfold wf, tickets in *. cbn [hold chan pending running done] in *.
     destruct a as [| |t| |]; cbn [todo chan hold cons cs pending running done].
-    - destruct td as [|x xs]; [exact W|]. cbn [hold chan pending running done].
-      intros t Ht. rewrite app_assoc, map_app in Ht. apply in_app_or in Ht. destruct Ht as [Ht|Ht].
+    - destruct td as [|x xs]; [exact W|]. destruct (ready x); cbn [hold chan pending running done];
+        intros t Ht; rewrite app_assoc, map_app in Ht; apply in_app_or in Ht; destruct Ht as [Ht|Ht].
+      + destruct (W t Ht) as [H|[H|H]]; [left; exact H|right; left; exact H|right; right; right; exact H].
+      + cbn [map fst In] in Ht. destruct Ht as [Ht|[]]. subst t. right. right. left. reflexivity.
       + destruct (W t Ht) as [H|[H|H]]; [left; apply in_or_app; left; exact H|right; left; exact H|right; right; exact H].
       + cbn [map fst In] in Ht. destruct Ht as [Ht|[]]. subst t. left. apply in_or_app. right. left. reflexivity.
     - destruct p as [|t p]; [exact W|]. cbn [hold chan pending running done].
@@ -256,7 +259,7 @@ Section PipelineProofs.
     intros E. unfold Sched.step. rewrite E.
     destruct s as [td n ch h p r d co c]. unfold measure.
     destruct a as [| |t| |]; cbn [Sched.enabled todo chan hold pending running done cs] in *.
-    - destruct td as [|x xs]; [discriminate|]. cbn [todo chan hold pending running]. rewrite !app_length. cbn [length]. lia.
+    - destruct td as [|x xs]; [discriminate|]. destruct (ready x); cbn [todo chan hold pending running]; rewrite ?app_length; cbn [length]; lia.
     - destruct p as [|t p]; [discriminate|]. cbn [todo chan hold pending running]. rewrite !app_length. cbn [length]. lia.
     - apply mem_In in E. pose proof (filter_neq_length_lt t r E). lia.
     - destruct h; [discriminate|]. destruct ch as [|q ch]; [discriminate|]. cbn [todo chan hold pending running olist length]. lia.
@@ -323,9 +326,10 @@ Section PipelineProofs.
     unfold Sched.step, bounded. intros [B1 B2]. destruct (enabled s a) eqn:E; [|split; assumption].
     destruct s as [td n ch h p r d co c].
     destruct a as [| |t| |]; cbn [Sched.enabled todo chan hold pending running done cs] in *.
-    - destruct td as [|x xs]; [discriminate|]. cbn [chan hold running]. apply andb_prop in E. destruct E as [E _].
-      apply can_submit_window in E. rewrite app_length. cbn [length].
-      split; [|exact B2]. destruct h; cbn [is_some olist length] in *; lia.
+    - destruct td as [|x xs]; [discriminate|]. apply andb_prop in E. destruct E as [E _].
+      apply can_submit_window in E.
+      destruct (ready x); cbn [chan hold running]; rewrite app_length; cbn [length];
+        (split; [|exact B2]); destruct h; cbn [is_some olist length] in *; lia.
     - destruct p as [|t p]; [discriminate|]. cbn [chan hold running]. apply Nat.ltb_lt in E.
       rewrite app_length. cbn [length]. split; lia.
     - split; [exact B1|]. pose proof (filter_len_le (fun u => negb (Nat.eqb t u)) r). lia.
